@@ -26,7 +26,7 @@
 (* ====================================================================== *)
 Require Import Field Ring Arith Lia List Bool.
 From TK Require Import Mat_Sums Mat_Core Mds_Model Mds_Spec Mds_Proof Mds_Proof_Solver
-                       Spectral_Randomized Mds_Proof_Rank.
+                       Spectral_Randomized Mds_Model_Randomized Mds_Proof_Rank.
 
 Section MdsRandomized.
   Context {F : Type} {Fo : FieldOps F} {Ff : IsField F}.
@@ -34,20 +34,6 @@ Section MdsRandomized.
   Variable eq_dec : forall x y : F, {x = y} + {x <> y}.
   Local Open Scope nat_scope.
   Local Open Scope F_scope.
-
-  (* ---------------- the front end as executed (definitions only) ---------------- *)
-  (* DenseMatrix Y = operation(O);   operation = selfadjointView<Upper>() * rhs *)
-  Definition rand_Y0 (n : nat) (B O : mat F) : mat F := mmul n (seen_randomized B) O.
-  (* the Gram-Schmidt loop with its threshold branch, k = target_dimension + skip columns *)
-  Definition rand_basis (below : F -> bool) (n k : nat) (B O : mat F) (s : nat -> F) : mat F :=
-    gram_schmidt_thr below n (rand_Y0 n B O) k s.
-  (* DenseMatrix B1 = operation(Y) *)
-  Definition rand_B1 (n : nat) (B Y : mat F) : mat F := mmul n (seen_randomized B) Y.
-  (* B = Y.householderQr().solve(B1): a solution Bs of the normal equations *)
-  Definition rand_normal_eq (n k : nat) (Y B1 Bs : mat F) : Prop :=
-    meq k k (mmul k (mmul n (mtrans Y) Y) Bs) (mmul n (mtrans Y) B1).
-  (* (Y * eigenOfB.eigenvectors()) *)
-  Definition rand_vectors (k : nat) (Y W : mat F) : mat F := mmul k Y W.
 
   (* ---------------- column space of Z ---------------- *)
   Definition in_span (n r : nat) (Z : mat F) (v : vec F) : Prop :=
